@@ -177,6 +177,9 @@ var c12Sel = []string{
 	"SELECT t.id, u.id AS uid, t.k, u.w FROM t INNER JOIN u ON t.k = u.k AND t.v = u.w",
 	"SELECT t.id, u.id AS uid FROM t LEFT JOIN u ON t.k = u.k AND u.w > 5 WHERE t.id % 7 = 0",
 	"SELECT u.id, t.id AS tid FROM u RIGHT JOIN t ON t.k = u.k AND t.id = u.id",
+	"SELECT t.id, z.w FROM t, LATERAL (SELECT w FROM u WHERE u.k = t.k AND u.id <= 3) z",
+	"SELECT t.id, z.c FROM t LEFT JOIN LATERAL (SELECT COUNT(*) AS c FROM u WHERE u.k = t.k) z ON 1 = 1",
+	"SELECT t.id, t.v, z.id AS uid FROM t INNER JOIN LATERAL (SELECT id FROM u WHERE u.id = t.id % 7) z ON 1 = 1",
 	"SELECT t.id, u.id AS uid FROM t FULL JOIN u ON t.id = u.id",
 	"SELECT COUNT(*) FROM t FULL JOIN u ON t.k = u.k",
 	"SELECT t.id, u.id AS uid FROM t FULL JOIN u ON t.k = u.k AND t.v < u.w",
